@@ -342,29 +342,36 @@ def run(tier, seed):
 
 
 def cache_cases(ck, g, have_model):
-    """fresh driver: classify P, register sessions, classify P again; the second answer must be the one of the NEW table"""
+    """one long-lived driver: classify every prompt, register the next session, classify again, …; after every
+    registration the answers must be those of a brand-new driver with the same sessions (which never cached
+    anything).  A stale lru_cache (update_privilege_levels not clearing it) shows as a difference."""
     from scrapli.driver.core import EOSDriver, NXOSDriver
-    plan = [("eos", EOSDriver, g.EOS_SESSIONS, ["leaf1(config-s-confs-)#", "leaf1(config-s-c.F+g-if)#", "leaf1(config)#", "leaf1#"]),
-            ("nxos", NXOSDriver, g.NXOS_SESSIONS, ["n9k(config-s)# ", "n9k(config-s-acl)# ", "n9k(config)# ", "n9k# "])]
+    plan = [("eos", EOSDriver, g.EOS_SESSIONS, ["leaf1(config-s-confs-)#", "leaf1(config-s-c.F+g-if)#", "leaf1(config)#", "leaf1#",
+                                                "leaf1(config-s-confs--if)#"]),
+            ("nxos", NXOSDriver, g.NXOS_SESSIONS, ["n9k(config-s)# ", "n9k(config-s-acl)# ", "n9k(config)# ", "n9k# ", "n9k(config-subif)# ",
+                                                   "n9k(config-s0)# "])]
     lines, real = [], []
+    kw = dict(host="localhost", auth_username="u", auth_password="p", auth_strict_key=False)
     for base, cls, sessions, prompts in plan:
-        conn = cls(host="localhost", auth_username="u", auth_password="p", auth_strict_key=False)
-        for p in prompts:
-            before = real_classify(conn, p)
-            real.append((base, p, before))
-            lines.append(f"classify {base} {hexs(p.encode())}")
-        for s in sessions:
-            conn.register_configuration_session(session_name=s)
-        for p in prompts:
-            after = real_classify(conn, p)
-            real.append((base + "S", p, after))
-            lines.append(f"classify {base}S {hexs(p.encode())}")
-            fresh = real_classify(real_conn(base + "S"), p)
-            ck.case(("cache", base, p), nontrivial=True, tags=("cache",))
-            if after != fresh:
-                ck.violation({"suite": base + "S", "prompt": p, "after_register": after, "fresh_driver_same_table": fresh,
-                              "what": "classification after register_configuration_session differs from a driver that never classified before (stale cache)"},
-                             "stale prompt-classification cache after register_configuration_session", None)
+        conn = cls(**kw)
+        for k in range(len(sessions) + 1):
+            if k:
+                conn.register_configuration_session(session_name=sessions[k - 1])
+            fresh = cls(**kw)
+            for s in sessions[:k]:
+                fresh.register_configuration_session(session_name=s)
+            for p in prompts:
+                got, want = real_classify(conn, p), real_classify(fresh, p)
+                ck.case(("cache", base, k, p), nontrivial=True, tags=("cache",))
+                if got != want:
+                    ck.violation({"suite": base + ("S" if k else ""), "prompt": p, "sessions_registered": sessions[:k],
+                                  "long_lived_driver": got, "fresh_driver_same_table": want,
+                                  "what": "classification after register_configuration_session differs from a driver that never "
+                                          "classified before (stale cache)"},
+                                 "stale prompt-classification cache after register_configuration_session", None)
+                if k in (0, len(sessions)):
+                    real.append((base + ("S" if k else ""), p, got))
+                    lines.append(f"classify {base}{'S' if k else ''} {hexs(p.encode())}")
     if have_model:
         try:
             out = run_model("C05", lines)
@@ -387,6 +394,19 @@ def replay(path):
         return 1
     from gen import c05 as g
     sn = v["suite"]
+    if "sessions_registered" in v:   # stale-cache case: long-lived driver vs brand-new driver
+        from scrapli.driver.core import EOSDriver, NXOSDriver
+        cls = EOSDriver if base_of(sn) == "eos" else NXOSDriver
+        kw = dict(host="localhost", auth_username="u", auth_password="p", auth_strict_key=False)
+        old, new = cls(**kw), cls(**kw)
+        real_classify(old, v["prompt"])
+        for s in v["sessions_registered"]:
+            old.register_configuration_session(session_name=s)
+            real_classify(old, v["prompt"])
+            new.register_configuration_session(session_name=s)
+        a, b = real_classify(old, v["prompt"]), real_classify(new, v["prompt"])
+        print(f"prompt {v['prompt']!r}: long-lived driver {a}, fresh driver with the same sessions {b}")
+        return 0 if a == b else 1
     conn = real_conn(sn)
     raw = unhex(v["prompt_hex"]) if v.get("prompt_hex") else v["prompt"].encode()
     det = real_detect(conn, raw)
